@@ -291,6 +291,8 @@ def profiles_part(run, pbl, cases, n, account=True, first_only=False):
                 run.sample(dict(scn, uf_applications={k: len(v) for k, v in c.apps.items()}), cap=4)
             for name, bad in ob.items():
                 decide(run, c, name, bad, scn, account, found)
+            if found:
+                break  # a violation candidate for this case: no need to explore its remaining grid lengths
             if first_only and found:
                 return found
         if npaths == 0:
